@@ -45,7 +45,9 @@ def dist_case(draw):
             "chains": draw(st.integers(0, 3)), "cols_seed": draw(st.integers(0, 10**6)),
             "index": draw(st.sampled_from(["default", "default", "reversed", "strided"])),
             "group_values": draw(st.lists(st.integers(1, 9), min_size=n_groups, max_size=n_groups, unique=True)),
-            "int_coords": draw(st.integers(0, 5)) == 0}
+            "int_coords": draw(st.integers(0, 5)) == 0,
+            "near_pairs": draw(st.integers(0, 3)), "near_eps": draw(st.sampled_from([1e-6, 1e-5, 5e-5, 2e-4])),
+            "origin": draw(st.sampled_from([0.0, 0.0, 1000.0, 2500.0]))}
 
 
 @st.composite
@@ -62,7 +64,8 @@ def peak_case(draw):
             "numbering": draw(st.integers(0, 1)), "order": order,
             "list_as": "csv" if order == "zzx" else draw(st.sampled_from(["array", "csv"])),
             "tomo_id": draw(st.integers(1, 500)), "object_id": draw(st.one_of(st.none(), st.integers(1, 50))),
-            "angles_dtype": draw(st.sampled_from(["float64", "int32", "float32"])), "offset": draw(st.sampled_from([0.0, 0.0, -0.6, -1.5, -5.0]))}
+            "angles_dtype": draw(st.sampled_from(["float64", "int32", "float32"])), "offset": draw(st.sampled_from([0.0, 0.0, -0.6, -1.5, -5.0])),
+            "scores_as": draw(st.sampled_from(["array", "array", "em", "mrc"])), "angles_as": draw(st.sampled_from(["array", "array", "em", "mrc"]))}
 
 
 def strategy(tier):
@@ -112,6 +115,20 @@ def build_distance(case):
             hi = [9.0, 8.0, 7.0] if case["keep_greater"] else [-1.0, 0.0, 0.5]
         scores[k:k + 3] = hi
         k += 3
+    # pairs whose distance is d*(1 +- eps): decidable in double precision, wrong if coordinates or distances are
+    # rounded to single precision somewhere (tomogram-sized coordinates make the rounding comparable to eps*d)
+    for c_ in range(case.get("near_pairs", 0)):
+        if k + 2 > n or case.get("int_coords"):
+            break
+        base = rng.uniform(150, 180, 3) + 30 * c_
+        u = rng.normal(size=3)
+        u /= np.linalg.norm(u)
+        sign = 1 if c_ % 2 == 0 else -1
+        pos[k], pos[k + 1] = base, base + u * d * (1 + sign * case["near_eps"])
+        grp[k:k + 2] = grp[k]
+        scores[k], scores[k + 1] = ((0.96, 0.95) if case["keep_greater"] else (0.04, 0.05)) if case["metric"] == "score" else ((6.5, 6.0) if case["keep_greater"] else (0.6, 0.7))
+        k += 2
+    pos = pos + case.get("origin", 0.0)
     shift = np.round(rng.uniform(-2, 2, (n, 3)), 3)
     a = np.zeros((n, 20))
     a[:, [IX["x"], IX["y"], IX["z"]]] = pos - shift
@@ -277,8 +294,28 @@ def run_peaks(case, out):
     out.label("peaks", f"thr:{case['thr_mode']}", f"order:{order}", f"list:{case['list_as']}", f"numbering:{numbering}",
               "noncubic" if len(set(shape)) > 1 else "cubic", "integer_diameter" if D == int(D) else "float_diameter")
     keep_s, keep_a = scores.copy(), amap.copy()
+    s_arg, a_arg = scores, amap
+    s_as, a_as = case.get("scores_as", "array"), case.get("angles_as", "array")
+    if s_as != "array":
+        # maps handed over as files (written by the harness' own writers); scores are stored as float32, so the map
+        # the function sees is the float32 rounding of the generated one
+        scores = scores.astype(np.float32).astype(np.float64)
+        keep_s = scores.copy()
+        if case["thr_mode"] == "sigma":  # the function computes mean and std of the float32 map it reads
+            thr = float(scores.mean() + case["sigma"] * scores.std(ddof=1))
+        top = scores[scores > thr]  # plateau-freeness matters among the supra-threshold voxels only
+        if np.unique(top).size != top.size or np.any(np.abs(scores - thr) <= 1e-5 * max(1.0, abs(thr))):
+            out.filtered = "float32_plateau_or_threshold_tie"
+            return
+        (oracle.em_write if s_as == "em" else oracle.mrc_write)("scores." + s_as, scores.astype(np.float32))
+        s_arg = "scores." + s_as
+        sup = np.argwhere(scores > thr)
+    if a_as != "array":
+        (oracle.em_write if a_as == "em" else oracle.mrc_write)("angles." + a_as, amap.astype(np.float32))
+        a_arg = "angles." + a_as
+    out.label(f"scores_as:{s_as}", f"angles_as:{a_as}")
     ok, m = call(out, "scores_extract_particles", lambda: tmana.scores_extract_particles(
-        scores, amap, alist, case["tomo_id"], D, object_id=case["object_id"], angles_order=order, angles_numbering=numbering, **kw))
+        s_arg, a_arg, alist, case["tomo_id"], D, object_id=case["object_id"], angles_order=order, angles_numbering=numbering, **kw))
     if not ok:
         return
     out.check(np.array_equal(scores, keep_s) and np.array_equal(amap, keep_a), "peaks:input_map_modified", "")
